@@ -456,6 +456,13 @@ func (e *chainEnv) tipReader(idx int) func(func(), func() bool) {
 				if (err != nil || !bytes.Equal(got.Header.ID, b.Header.ID)) && e.quiet(rm) {
 					e.out.fail("tip:not-retrievable", fmt.Sprintf("tip %d obtained through %s cannot be fetched by id: %v", b.Header.Height, api, err), nil)
 				}
+				// "some complete COMMITTED tip": what the tip announces must already be in the database (these look-ups do
+				// not go through the block cache)
+				if len(b.Transactions) > 0 {
+					if _, err := e.da.GetTransaction(b.Transactions[0].ID); err != nil && e.quiet(rm) {
+						e.out.fail("tip:uncommitted-data:"+api, fmt.Sprintf("tip %d obtained through %s: its first transaction is not in the database yet: %v", b.Header.Height, api, err), nil)
+					}
+				}
 			}
 			tick()
 		}
